@@ -238,7 +238,11 @@ func c15Run(cfg c15Cfg) (init []byte, ops []c15Op, problem string) {
 			kind = cfg.Kinds[i]
 		}
 		flag := map[string]int{"r": os.O_RDONLY, "w": os.O_WRONLY, "rw": os.O_RDWR}[kind]
-		f, err := pair.Client.OpenFile(path, flag)
+		var f *sftp.File
+		var err error
+		if !lib.Within("c15/"+cfg.Server, 20*time.Second, func() { f, err = pair.Client.OpenFile(path, flag) }) {
+			return nil, nil, "hang: OpenFile did not return within 20 s"
+		}
 		if err != nil {
 			return nil, nil, "open: " + err.Error()
 		}
@@ -386,9 +390,7 @@ func c15Run(cfg c15Cfg) (init []byte, ops []c15Op, problem string) {
 	}
 	done := make(chan struct{})
 	go func() { wg.Wait(); close(done) }()
-	select {
-	case <-done:
-	case <-time.After(30 * time.Second):
+	if _, ok := lib.WaitHang("c15/"+cfg.Server, 30*time.Second, done); !ok { // out of the run's hang budget (lib/budget.go)
 		return init, nil, "hang: concurrent operations did not finish within 30 s"
 	}
 	// match store events to client ops
@@ -612,6 +614,9 @@ func checkC15(c *lib.Ctx) {
 		return true
 	}
 	for _, cfg := range cfgs {
+		if c.Stop("c15/" + cfg.Server) {
+			continue
+		}
 		tr := time.Now()
 		init, ops, problem := c15Run(cfg)
 		tRun += time.Since(tr)
